@@ -32,3 +32,12 @@ Definition run_update (st : Z) (speed step time0 : float) (post : Z) (mfp xs E :
   let i := upd_input speed xs in
   let s1 := track_update i (time_update i s) in
   (mtime s1, mmfp s1, Z.of_nat (mnsteps s1)).
+
+(** allocation-failure branch of InteractionApplier on a slot whose step length is [step0]:
+    (step length, post action) afterwards, for either variant of the branch *)
+Definition run_ifail (fixed : bool) (step0 : float) :=
+  let s := blank Alive step0 AModel 1%float 1%float 0%float in
+  let i := mkIn 0%float AOther 0%float 0%float 1%float false false 0%float 0%float AOther
+                (mkInt IFailed 0%float 0%float []) (V3 0 0 1)%float false (fun _ => None) None in
+  let s1 := interact_act fixed i s in
+  (mstep s1, paction_code (mpost s1)).
